@@ -23,6 +23,7 @@ DOC_TEXTS = [
     ("long", " " + "x" * 3000), ("at", " @param x {string}"), ("html", " <script>alert(1)</script>"), ("empty-line", ""),
     ("star", " * bullet"), ("import", ' import type { A } from "./a";'), ("brace", ' json {"a": 1} and {} and {{x}}'),
     ("percent", " 100% {0} %s"), ("leading-slash", "/ export type Evil = any;"), ("leading-slash", "/"),
+    ("open-paren", " see ( here"), ("close-paren", " a ) b"), ("splice-pattern", " a } & { b"), ("odd-quote", ' one " quote'),
 ]
 
 
@@ -121,18 +122,23 @@ class TextGen:
     # ---- C15: doc groups ---------------------------------------------------------------------
     def doc_groups(self, n_groups):
         r = self.r
-        shapes = ["named", "enum-struct-variant", "tuple", "enum-unit", "flatten"]
+        shapes = ["named", "enum-struct-variant", "tuple", "enum-unit", "flatten", "only-flattened-enum"]
         for gi in range(n_groups):
             shape = shapes[gi % len(shapes)]
             position = r.choice({"named": ["container", "field"], "enum-struct-variant": ["container", "variant", "variant-field"],
-                                 "tuple": ["container"], "enum-unit": ["container", "variant"], "flatten": ["flattened-field", "field"]}[shape])
+                                 "tuple": ["container"], "enum-unit": ["container", "variant"], "flatten": ["flattened-field", "field"],
+                                 "only-flattened-enum": ["flattened-enum-variant-field", "flattened-enum-variant"]}[shape])
             texts = [None, r.choice(DOC_TEXTS), r.choice(DOC_TEXTS)]
+            if shape == "only-flattened-enum" and r.random() < 0.5:
+                # the embedded comment must not disturb what is done to the surrounding type text
+                texts = [None, r.choice([t for t in DOC_TEXTS if t[0] in ("open-paren", "close-paren")]),
+                         r.choice([t for t in DOC_TEXTS if t[0] in ("odd-quote", "non-ascii", "open-paren")])]
             form = r.choice(["line", "two-lines", "attr", "block", "block-blank", "block+line", "attr-multiline", "attr-multiline+attr",
                              "block-nested"])
             # other attributes on the documented node (the same for every member of the group)
             fctx = r.choice([None, None, None, '#[ts(type = "string")]', '#[ts(as = "String")]', "#[ts(inline)]", "#[ts(optional)]",
                              '#[ts(rename = "alpha")]', "#[serde(default)]"])
-            if shape in ("tuple", "enum-unit"):
+            if shape in ("tuple", "enum-unit", "only-flattened-enum"):
                 fctx = None
             cctx = r.choice([None, None, None, '#[ts(rename_all = "lowercase")]', "#[ts(optional_fields)]", '#[ts(tag = "t")]']) if shape == "named" else None
             alpha_ty = Ty("opt", args=[prim("i32")]) if fctx == "#[ts(optional)]" else prim("i32")
@@ -154,6 +160,24 @@ class TextGen:
                     it = self.mk("tuple", docs=cdocs, fields=[Field(None, prim("i32")), Field(None, prim("bool"))])
                 elif shape == "enum-unit":
                     it = self.mk("enum", docs=cdocs, variants=[Variant("First", "unit", docs=vdocs), Variant("Second", "unit")])
+                elif shape == "only-flattened-enum":
+                    # the documented enum is the only (flattened) member of the examined struct: its text, comments included,
+                    # is what the struct's declaration is made of
+                    inner = self.mk("enum", variants=[
+                        Variant("First", "struct", [Field("alpha", prim("i32"), docs=docs if position.endswith("variant-field") else [])],
+                                docs=docs if position.endswith("-variant") else []),
+                        Variant("Second", "unit")])
+                    self.add(inner, position="helper", cls="helper", text="")
+                    if (gi // len(shapes)) % 2:
+                        it = self.mk("named", fields=[Field("flat", Ty("user", item=inner), flatten=True)])
+                    else:
+                        # ... or one of two flattened enums of the only (flattened) member
+                        other = self.mk("enum", variants=[Variant("Third", "struct", [Field("gamma", prim("bool"))]), Variant("Fourth", "unit")])
+                        self.add(other, position="helper", cls="helper", text="")
+                        mid = self.mk("named", fields=[Field("ea", Ty("user", item=inner), flatten=True),
+                                                       Field("eb", Ty("user", item=other), flatten=True)])
+                        self.add(mid, position="helper", cls="helper", text="")
+                        it = self.mk("named", fields=[Field("flat", Ty("user", item=mid), flatten=True)])
                 else:
                     inner = self.mk("named", fields=[Field("inner_a", prim("u8"))])
                     self.add(inner, position="helper", cls="helper", text="")
